@@ -269,25 +269,35 @@ class AppCfgMgr:
 
         for container in configured:
             appname = appcfg.app_name(container)
-            if os.path.exists(os.path.join(self.tm_env.running_dir, appname)):
-                # App already running.. check if in cache.
+            # An instance can have several generations of containers (it was
+            # evicted and placed again): check what *this* container is
+            # linked to, not what the instance is.
+            is_current = cached.get(appname) == container
+            in_cleanup = self._linked_container(
+                os.path.join(self.tm_env.cleanup_dir, appname)
+            )
+            if self._linked_container(
+                    os.path.join(self.tm_env.running_dir, appname)
+            ) == container:
+                # Container already running.. check if in cache.
                 # No need to check if needs cleanup as that is handled
-                if appname not in cached or cached[appname] != container:
-                    self._terminate(appname)
-                else:
+                if is_current:
                     _LOGGER.info('Ignoring %s as it is running', appname)
+                    cached.pop(appname, None)
+                else:
+                    # A newer manifest, if any, stays in `cached` and is
+                    # configured below.
+                    self._terminate(appname)
 
-                cached.pop(appname, None)
-
-            elif os.path.exists(os.path.join(self.tm_env.cleanup_dir,
-                                             appname)):
+            elif in_cleanup == container:
                 # Already in the process of being cleaned up
                 _LOGGER.info('Ignoring %s as it is in cleanup', appname)
-                cached.pop(appname, None)
+                if is_current:
+                    cached.pop(appname, None)
 
             else:
                 needs_cleanup = True
-                if appname in cached and cached[appname] == container:
+                if is_current:
                     data_dir = os.path.join(self.tm_env.apps_dir, container,
                                             'data')
                     for cleanup_file in ['exitinfo', 'aborted', 'oom']:
@@ -302,12 +312,17 @@ class AppCfgMgr:
 
                     cached.pop(appname, None)
 
-                if needs_cleanup:
+                if needs_cleanup and in_cleanup is None:
                     fs.symlink_safe(
                         os.path.join(self.tm_env.cleanup_dir, appname),
                         os.path.join(self.tm_env.apps_dir, container)
                     )
                     _LOGGER.debug('Removed %r', appname)
+                elif needs_cleanup:
+                    # The cleanup link of this instance is taken by another
+                    # generation: handled by a later synchronization.
+                    _LOGGER.info('Cleanup of %r deferred (%r in cleanup)',
+                                 container, in_cleanup)
 
         for appname in six.iterkeys(cached):
             if self._configure(appname):
@@ -414,6 +429,22 @@ class AppCfgMgr:
             supervisor.SvscanControlAction.alarm,
             supervisor.SvscanControlAction.nuke
         ))
+
+    @staticmethod
+    def _linked_container(link):
+        """Name of the existing container a running/cleanup link points to.
+
+        :returns ``str``:
+            Container unique name, ``None`` if the link or the container
+            directory it points to does not exist.
+        """
+        if not os.path.exists(link):
+            return None
+
+        try:
+            return os.path.basename(os.readlink(link))
+        except OSError:
+            return None
 
     @staticmethod
     def _resolve_running_link(running_link):
